@@ -2,7 +2,7 @@
    Only statements here; proofs are in Proofs/PreParse*.v. *)
 Require Import BB.Base.Str BB.Gen.TablesParser BB.Model.PreParse BB.Model.PreParseSpec.
 Require Import BB.Proofs.PreParseNF BB.Proofs.PreParseInvariance BB.Proofs.PreParseScale BB.Proofs.PreParseTrailing.
-Require Import BB.Base.Xml BB.Model.Convert BB.Gen.TablesLibs BB.Proofs.PegLine BB.Proofs.LineRule BB.Proofs.PlainLineConvert BB.Proofs.PreParseStair BB.Proofs.HierElement BB.Proofs.HierElementConvert BB.Proofs.HierChainConvert BB.Proofs.EscapeLossless BB.Proofs.HierNoHeading BB.Proofs.HierNoHeadingConvert BB.Proofs.Totality BB.Model.Eid BB.Model.EidSpec BB.Model.XmlGen BB.Base.Dict BB.Model.PegSyntax BB.Model.Peg BB.Model.Types.
+Require Import BB.Base.Xml BB.Model.Convert BB.Gen.TablesLibs BB.Proofs.PegLine BB.Proofs.LineRule BB.Proofs.PlainLineConvert BB.Proofs.PreParseStair BB.Proofs.HierElement BB.Proofs.HierElementConvert BB.Proofs.HierChainConvert BB.Proofs.EscapeLossless BB.Proofs.HierNoHeading BB.Proofs.HierNoHeadingConvert BB.Proofs.Totality BB.Model.Eid BB.Model.EidSpec BB.Model.XmlGen BB.Base.Dict BB.Model.PegSyntax BB.Model.Peg BB.Model.Types BB.Proofs.LayoutDocument.
 
 (* For every text over the alphabet: the first content line is at depth 0 and, for every two
    consecutive non-blank lines with indentation widths w, w' and depths d, d' (depth = number of
@@ -143,3 +143,47 @@ Theorem C12_hier_element_without_heading_layout_irrelevant : forall uri prefix k
   = convert uri (of_string "hier_element") prefix (kw ++ 32 :: n ++ NL :: repeat NL b2 ++ repeat SP k2 ++ encode ut ++ [NL]).
 Proof. exact hier_element_layout_irrelevant_nh. Qed.
 Print Assumptions C12_hier_element_without_heading_layout_irrelevant.
+
+
+(* ---------- the same at DOCUMENT level, for every text ----------
+   The pipeline model reads its input only through pre_parse, so each invariance above is an invariance of the converted document -
+   or of the error when the conversion fails: both sides fail alike.  Every URI, every root rule, every prefix, every text
+   (Proofs/LayoutDocument.v).  The model is tied to the code by the e2e stage; the C12 check runs the same four variations on the
+   implementation's documents. *)
+Theorem C12_document_tab_is_spaces : forall uri root prefix a b,
+  convert uri root prefix (a ++ TAB :: b) = convert uri root prefix (a ++ repeat SP default_indent_size ++ b).
+Proof. exact document_tab_is_spaces. Qed.
+Print Assumptions C12_document_tab_is_spaces.
+
+Theorem C12_document_outer_whitespace_irrelevant : forall uri root prefix a s b,
+  forallb py_isspace a = true -> forallb py_isspace b = true ->
+  convert uri root prefix (a ++ s ++ b) = convert uri root prefix s.
+Proof. exact document_outer_whitespace_irrelevant. Qed.
+Print Assumptions C12_document_outer_whitespace_irrelevant.
+
+Theorem C12_document_trailing_spaces_irrelevant : forall uri root prefix a n b,
+  convert uri root prefix (a ++ repeat SP n ++ NL :: b) = convert uri root prefix (a ++ NL :: b).
+Proof. exact document_trailing_spaces_irrelevant. Qed.
+Print Assumptions C12_document_trailing_spaces_irrelevant.
+
+Theorem C12_document_indent_scaling : forall uri root prefix k ls,
+  (1 <= k)%nat -> good_lines ls ->
+  convert uri root prefix (join_on NL (map (scale_line k) ls)) = convert uri root prefix (join_on NL ls).
+Proof. exact document_indent_scaling. Qed.
+Print Assumptions C12_document_indent_scaling.
+
+(* not vacuous: a document that converts, written with a tab, trailing spaces and blank lines around it *)
+Example C12_document_layout_example :
+  exists x,
+    convert (of_string "/akn/za/act/2009/1") (of_string "hier_element") [] (of_string "SEC 1. - h
+  SUBSEC (a)
+    text
+") = OkR x
+    /\ convert (of_string "/akn/za/act/2009/1") (of_string "hier_element") []
+         ([NL; SP; NL] ++ of_string "SEC 1. - h   
+" ++ TAB :: of_string "SUBSEC (a)
+    text  
+
+ 
+") = OkR x.
+Proof. eexists. split; vm_compute; reflexivity. Qed.
